@@ -17,4 +17,18 @@ theorem afterPark_generated (start T : Nat) :
   unfold afterPark K.msToSecondWheelTimeout K.msSecondDeadlineTimeout K.msToSecondWheelExpried K.msSecondDeadlineExpried QLEN
   constructor <;> (by_cases hT : T ≥ 3000 <;> simp [hT] <;> omega)
 
+/-- the follower re-arm is regenerated from `doExpried` -/
+theorem followerDefer_generated (now : Nat) : K.followerRearm now = (followerDefer now : Int) := by
+  unfold K.followerRearm followerDefer REARM; simp
+
+/-- Call-site facts (regenerated): the sweeps of BOTH wheels reach `doExpried` / `doTimeOut` with `forcedExpried = false`, i.e. through the
+branch that defers to the leader on a follower; only the flush-on-close paths force. A call site that starts passing `true` (ending
+replicated holds on a follower's own clock) changes the regenerated list and this theorem stops checking. -/
+theorem sweep_call_sites_do_not_force :
+    K.doExpriedCalls_checkMillisecondExpried = [["lock", "false", "true"]] ∧
+    K.doExpriedCalls_checkTimeExpried = [["lock", "false", "false"]] ∧
+    K.doTimeOutCalls_checkMillisecondTimeOut = [["lock", "false", "true"]] ∧
+    K.doTimeOutCalls_checkTimeTimeOut = [["lock", "false", "false"]] := by
+  decide
+
 end Slock.Ms
